@@ -180,3 +180,71 @@ def deduplicate_contract():
                     handlers={'list': h_list}, registry_ext={'methods': {('.values', 'keydict'): m_values}},
                     havoc={'unique_objs': lambda v: Val('keydict', z3.FreshConst(KeySet, 'uo'))},
                     note='a dict keyed by the version key: keys of the result == image of the input under the key function, each once (dict keys are unique)')
+
+
+# ------------------------------------------------------------------ DataSource.relationships: exactly what a scan of the stored relationship objects implies (C18), given
+# the contract of query() (C12: exactly the stored objects satisfying every filter).  Objects are abstracted to identities (strings); their four relevant properties are
+# uninterpreted functions of the identity; the store is an arbitrary set of identities.
+STORED = z3.Const('stored', E.SetS)
+PROP = {p: z3.Function('prop.' + p, E.S, E.S) for p in ('type', 'relationship_type', 'source_ref', 'target_ref')}
+
+
+def relationships_contract(variant):
+    """variant 'object': `obj` is a mapping with an id; 'id': `obj` is the identifier itself (obj['id'] raises TypeError, which the function turns into "use obj")"""
+    from vf.pyvc.lib import rebinding, mk_map
+    obj = mk_map('obj', {'id': 'str'}, open_keys=True) if variant == 'object' else Str(z3.String('obj'))
+    oid = (lambda a: a['obj'].x['value']('id').t) if variant == 'object' else (lambda a: a['obj'].t)
+
+    def h_filter(x, e, p, site):
+        for p1, vs in x.ev_seq(list(e.args), p):
+            if isinstance(vs, Exc): yield p1, vs; continue
+            pr, op, v = vs
+            if not (pr.sort == 'str' and z3.is_string_value(pr.t) and op.sort == 'str' and z3.is_string_value(op.t) and op.t.as_string() == '=' and pr.t.as_string() in PROP):
+                raise Unsupported(site + ' filter outside the four equality filters of the query contract')
+            v1 = v if v.sort == 'str' else (v.t[1] if v.sort == 'opt:str' else None)
+            if v1 is None: raise Unsupported(site + ' filter value sort ' + v.sort)
+            yield p1, Val('filter', x=(pr.t.as_string(), v1.t))
+
+    def h_query(x, e, p, site):
+        """callee contract of self.query (C12): exactly the stored objects for which every filter holds"""
+        for p1, vs in x.ev_seq(list(e.args), p):
+            if isinstance(vs, Exc): yield p1, vs; continue
+            fl = vs[0]
+            if fl.sort != 'litlist' or any(f.sort != 'filter' for f in fl.x): raise Unsupported(site + ' query argument is not a list of filters')
+            u = z3.FreshConst(E.S, 'u')
+            yield p1, SetV(z3.Lambda([u], z3.And(STORED[u], *[PROP[pn](u) == val for pn, val in (f.x for f in fl.x)])))
+
+    def list_add(x, a, b, p, site): yield p, Val('litlist', x=list(a.x) + list(b.x))
+
+    def m_append(x, recv, args, p): return Val('litlist', x=list(recv.x) + [args[0]])
+
+    def m_extend(x, recv, args, p):
+        if args[0].sort != 'set': raise Unsupported('extend with ' + args[0].sort)
+        if recv.sort == 'litlist':
+            if recv.x: raise Unsupported('extend of a non-empty literal list')
+            return args[0]
+        u = z3.FreshConst(E.S, 'u')
+        return SetV(z3.Lambda([u], z3.Or(recv.t[u], args[0].t[u])))
+
+    def subscript_id(x, e, p):
+        # obj['id'] on an identifier string: TypeError (string indices must be integers) -- the function's own way of telling ids from objects
+        yield p, Exc('TypeError', 'obj[id]')
+
+    def spec(a, r):
+        u = z3.FreshConst(E.S, 'u'); rt = a['relationship_type']
+        rt_ok = z3.Or(rt.t[0], z3.Length(rt.t[1].t) == 0, PROP['relationship_type'](u) == rt.t[1].t)
+        side = z3.Or(z3.And(z3.Not(a['target_only'].t), PROP['source_ref'](u) == oid(a)), z3.And(z3.Not(a['source_only'].t), PROP['target_ref'](u) == oid(a)))
+        got = r.t if r.sort == 'set' else (E.EMPTY if r.sort == 'litlist' and not r.x else None)
+        if got is None: return z3.BoolVal(False)
+        return z3.ForAll([u], got[u] == z3.And(STORED[u], PROP['type'](u) == z3.StringVal('relationship'), rt_ok, side))
+    return Contract('stix2/datastore/__init__.py::DataSource.relationships', props=['C18'], note=f'obj given as {variant}',
+                    params={'self': 'opaque', 'obj': obj, 'relationship_type': 'opt:str', 'source_only': 'bool', 'target_only': 'bool'},
+                    ensures=[('the result is exactly the stored relationship objects of the requested type in which the object is source (unless target_only) or target (unless source_only)', spec)],
+                    raises={'ValueError': (lambda a: z3.Or(z3.And(a['source_only'].t, a['target_only'].t), z3.Not(a['obj'].x['present']('id')))) if variant == 'object'
+                            else (lambda a: z3.And(a['source_only'].t, a['target_only'].t))},
+                    handlers={'Filter': h_filter, 'self.query': h_query},
+                    registry_ext={'binops': {('litlist', 'Add', 'litlist'): list_add},
+                                  'methods': {('.append', 'litlist'): rebinding(m_append), ('.extend', 'litlist'): rebinding(m_extend), ('.extend', 'set'): rebinding(m_extend)}},
+                    expr_hooks=({"obj['id']": subscript_id} if variant == 'id' else {}),
+                    assumptions=['callee contract of self.query (property C12): exactly the stored objects satisfying every filter; objects abstracted to identities, results to sets of identities '
+                                 '(each stored (id, version) is one identity: nothing is said about order or repetition of the returned list)'])
